@@ -164,7 +164,7 @@ class MessagePackDocument(HierDictDocument):
             try:
                 ctx.in_document = msgpack.unpackb(b''.join(ctx.in_string))
             except ValueError as e:
-                raise MessagePackDecodeError(' '.join(e.args))
+                raise MessagePackDecodeError(repr(e))
 
     def gen_method_request_string(self, ctx):
         """Uses information in context object to return a method_request_string.
@@ -223,7 +223,7 @@ class MessagePackRpc(MessagePackDocument):
 
 
         except ValueError as e:
-            raise MessagePackDecodeError(''.join(e.args))
+            raise MessagePackDecodeError(repr(e))
 
         try:
             len(ctx.in_document)
